@@ -267,6 +267,8 @@ class GaussianMeasure(factor.ConjugateFactor):
         Returns:
             Boolean area indicating which measure is normalized.
         """
+        if self.lnZ is None:
+            self.compute_lnZ()
         return jnp.equal(self.lnZ, -self.ln_beta)
 
     def compute_mu(self):
